@@ -67,6 +67,19 @@ Section P2Ring.
     unfold p2_absorb. cbn [p2w p2f p2P]. rewrite (absorb_at_1_again R w fs Hl Hrows). reflexivity.
   Qed.
 
+  Theorem p2_run_zero_budget R s : p2_run rI rmul upd stop normf normalize R 0 s = if normalize then normf s else s.
+  Proof. reflexivity. Qed.
+
+  Theorem p2_run_same_iterates R w fs (P : PT) budget : normalize = false -> length w = R ->
+    (forall row, In row (nth 1 fs []) -> R <= length row) -> 0 < budget ->
+    p2_run rI rmul upd stop normf normalize R budget (mkp2 (ones rI R) (absorb_at rmul 1 w fs) P)
+    = p2_run rI rmul upd stop normf normalize R budget (mkp2 w fs P).
+  Proof.
+    intros Hn Hl Hr Hb. unfold p2_run.
+    assert (E : forall s : p2st F PT, (if normalize then normf s else s) = s) by (intros s; now rewrite Hn).
+    rewrite !E. now apply p2_same_iterates.
+  Qed.
+
   (* ---- initialisation from a CP tensor / a Parafac2Tensor *)
   Variable qr : @matrix F -> @matrix F * @matrix F.
 
